@@ -143,7 +143,9 @@ Record cx := mk_cx {
   c_skip : bool;                (* Statement.SkipHooks *)
   c_skipdef : bool;             (* Config.SkipDefaultTransaction *)
   c_dest : dest;
-  c_fails : list Z; c_sets : list Z; c_setkey : pkey
+  c_fails : list Z; c_sets : list Z; c_setkey : pkey;
+  c_keep : bool                 (* association save: ON CONFLICT DO NOTHING / DO UPDATE of the foreign key only —
+                                   a row that already exists keeps its values (associations.go onConflictOption) *)
 }.
 
 (* ------------------------------------------------------------------ SetColumn *)
@@ -270,7 +272,8 @@ Definition stmt_create (c : cx) (s : S) : S :=
   | _ =>
     if existsb m_nil (s_recs s) then add_err EInvalidData s else
     let s1 := emit (TStmt VInsert (c_table c) (s_pool s)) s in
-    set_tbl (fold_left (fun tb r => upsert (c_table c) (m_tag r) (m_val r) tb) (s_recs s) (s_tbl s1)) s1
+    set_tbl (fold_left (fun tb r => if c_keep c && has_row (c_table c) (m_tag r) tb then tb
+                                    else upsert (c_table c) (m_tag r) (m_val r) tb) (s_recs s) (s_tbl s1)) s1
   end.
 
 (* ConvertToAssignments on a map iterates the keys sorted: "Val" < "val"; the later assignment wins *)
@@ -331,7 +334,7 @@ Definition stmt_query (c : cx) (first : bool) (limit : Z) (s : S) : S :=
    starts with an error runs nothing and hands the same error back, which AddError appends again. *)
 Definition assoc_cx (c : cx) (t : ty) (tb : table) (single : bool) : cx :=
   mk_cx t (mk_shape (if single then CStruct else CSlice) true true) tb (c_skip c) (c_skipdef c) DSelf
-        (c_fails c) (c_sets c) (c_setkey c).
+        (c_fails c) (c_sets c) (c_setkey c) true.
 
 (* the create pipeline without associations of its own (Boss / Kid / Pet have none) *)
 Definition leaf_create (c : cx) (s : S) : S :=
@@ -445,7 +448,7 @@ Record op := mk_op {
 
 Definition op_cx (o : op) (skip : bool) (d : dest) : cx :=
   mk_cx (o_ty o) (o_shape o) TRecs skip (match o_txmode o with TxSkipDefault => true | _ => false end) d
-        (o_fails o) (o_sets o) (o_setkey o).
+        (o_fails o) (o_sets o) (o_setkey o) false.
 
 Definition init_state (o : op) : S :=
   let pay := match o_payvia o with PVMapDb => [(KDb, o_pay o)] | PVMapField => [(KField, o_pay o)] | PVStruct => [] end in
